@@ -948,7 +948,7 @@ func modify(f form, all bool) []subject {
 	// trailing tokens
 	for i := range f.pieces {
 		for k, t := range trailingTokens {
-			if !all && (i == 0 && k >= 16 || i > 0 && k >= 6) {
+			if !all && (i == 0 && k >= 12 || i > 0 && k >= 4) {
 				break
 			}
 			if p, ok := insertAtEnd(f.pieces[i], t, f.syn); ok {
@@ -1361,11 +1361,16 @@ func Forms(r *proto.Rand, quick bool, nRandom int) []FormCase {
 			}
 			return
 		}
-		if level == 3 { // the bulk forms (type expressions, expressions)
+		if level == 3 { // the bulk forms (type expressions, expressions, nil conversions)
 			level = 2
 			if all {
 				level = 1
+			} else if s.cat != "nilconv" && r.Intn(2) == 0 { // quick: half of them, chosen by the seed
+				return
 			}
+		}
+		if !all && s.level == 2 && s.mod == "using" && r.Intn(2) == 0 { // quick: half of the rarer spellings of using
+			return
 		}
 		if all && level == 2 && s.mod != "nested" { // thorough: two roles in turn
 			emit(s, rs[(turn+len(rs)/2)%len(rs)])
@@ -1430,6 +1435,9 @@ func Forms(r *proto.Rand, quick bool, nRandom int) []FormCase {
 		for _, o := range forms {
 			for _, in := range inner {
 				for _, s := range nest(o, in) {
+					if quick && r.Intn(2) == 0 { // quick: half of the nestings, chosen by the seed
+						continue
+					}
 					place(s, syn)
 				}
 			}
